@@ -21,7 +21,16 @@ func eval(n *Node, data map[string]interface{}) int {
 	}
 	out["seen"] = true
 	helper(local)
-	return len(local.Args) + len(out)
+	return len(local.Args) + len(out) + local.label()
+}
+
+// label negates a private copy of the arguments.
+func (n Node) label() int {
+	args := make([]int, len(n.Args))
+	for i, a := range n.Args {
+		args[i] = -a
+	}
+	return len(args)
 }
 
 func helper(n *Node) {
